@@ -1,6 +1,6 @@
 """C06 - Kernel hook redirects exactly the protected connects, records the true caller."""
 import os, shutil, socket, struct, subprocess, tempfile, threading
-from .. import common, shim as shimmod, standin
+from .. import common, shim as shimmod, standin, sandbox, realbpf
 
 SIM = os.path.join(common.TARGET, "ebpf_sim")
 TCP, UDP = 6, 17
@@ -141,6 +141,8 @@ def run(tier, rep):
                             "multi-threaded, the agent's own pid in skip_process_map), policy_map loaded with the BYTES THE RUST SIDE PRODUCES (hook H1) for a random endpoint on/off combination, 10-200 connect attempts "
                             "(AF_INET/AF_INET6, TCP/UDP, listed and near-miss destinations, some failing after the first hook) split into the two hook invocations and interleaved across threads; oracle = Python reference of the "
                             "statement over the rewritten context and the audit map; then every raw audit value is injected through H1 and read back with the production decoders (lookup_audit) and must equal the simulated truth. "
+                            "kernel section: the same C file compiled with clang -target bpf, loaded through the production BpfObject (aya), connect4 accepted by the kernel verifier and attached to a private cgroup; real processes "
+                            "(uid/gid classes) connect() to listed/unlisted/UDP destinations, the rewritten peer address, the kernel's pending record and the policy map after run-time updates are compared with the reference. "
                             "non-trivial = world with a listed connect by a uid!=gid task and >=2 threads between the hooks; distinct by (credential classes, destination classes, interleaving shape)")
     nworlds = 1200 if tier == "quick" else 20000
     root = tempfile.mkdtemp(prefix="gpa-verif.", dir="/var/tmp")
@@ -261,6 +263,18 @@ def run(tier, rep):
         sh.close()
     finally:
         shutil.rmtree(root, ignore_errors=True)
+    # ---- real-kernel section: the same unmodified C file compiled for the BPF target, loaded by the agent's own BpfObject,
+    #      connect4 verified by the kernel and attached to a private cgroup, real connect() calls by real processes
+    err = realbpf.build()
+    if err:
+        rep.coverage["kernel_section_skipped"] = 1
+        rep.coverage["kernel_section_skip_reason"] = err[:300]
+    else:
+        kres = sandbox.run("vf.props.kernelsec", "c06_worker", {"tier": tier, "rounds": 4 if tier == "quick" else 12, "connects": 30 if tier == "quick" else 80}, timeout=900, pidns=False)
+        if kres.get("skip_reason"):
+            rep.coverage["kernel_section_skip_reason"] = kres["skip_reason"][:300]
+        kres.pop("inconclusive", None) if kres.get("skip_reason") else None
+        rep.merge_worker(kres)
     rep.coverage["sanitizer_reports"] = sum(1 for s, _ in rep.violations if s.startswith("sanitizer"))
     rep.assumptions += ["the helper/map semantics are those documented in bpf-helpers(7)/linux/bpf.h; verifier acceptance, struct sock_common offsets against a running kernel and the attach points are out of reach (no kprobes in this kernel)",
                         "a thread is inside one connect() at a time (it cannot start another connect between its two hook points)"]
